@@ -1178,7 +1178,8 @@ func (w *Worktree) copyObjectToWorktree(cfg *config.Config, object *object.File,
 		}
 		defer ioutil.CheckClose(src, &err)
 
-		if !stat.IsBinary() {
+		// Like git, leave content that already has a CRLF untouched.
+		if !stat.IsBinary() && stat.CRLF == 0 {
 			dst = convert.NewCRLFWriter(dst)
 		}
 	}
